@@ -351,12 +351,12 @@ PROPS["C11"] = dict(
     distinct_key="outcomes",
     assumptions=["single damage per case (multi-site damage is out of the bound)", "databases are a few KiB (B1 sizes) so that every byte can be enumerated"] + E3_ASSUME[2:3],
     stages=[dict(name="corrupt", driver="corrupt", flavour="asan", args=["--mode", "c11"],
-                 quick=["--cfgs", "B1;B1,snappy=1,bloom=1", "--dbs", "3", "--quick-alts", "1"],
-                 thorough=["--cfgs", "B1;B1,snappy=1,bloom=1;B1,mmap=0,cache=1;B1,cmp=1;B1,bloom=1,mmap=0", "--dbs", "3"])],
+                 quick=["--cfgs", "B1;B1,snappy=1,bloom=1", "--dbs", "4", "--quick-alts", "1"],
+                 thorough=["--cfgs", "B1;B1,snappy=1,bloom=1;B1,mmap=0,cache=1;B1,cmp=1;B1,bloom=1,mmap=0", "--dbs", "4"])],
 )
 PROPS["C18"]["stages"].append(dict(name="wholedb", driver="corrupt", flavour="asan", args=["--mode", "c18"],
-                                   quick=["--cfgs", "B1", "--dbs", "3", "--quick-alts", "1"],
-                                   thorough=["--cfgs", "B1;B1,snappy=1,bloom=1;B1,mmap=0", "--dbs", "3"]))
+                                   quick=["--cfgs", "B1", "--dbs", "4", "--quick-alts", "1"],
+                                   thorough=["--cfgs", "B1;B1,snappy=1,bloom=1;B1,mmap=0", "--dbs", "4"]))
 PROPS["C18"]["rule"] += "; whole-database stage: every byte of every file of generated databases x alterations, then ldb_dump_file of the damaged file (src/dumpfile.c) / open / compact / scan both ways / repair / open / scan on the damaged copy (oracle: returns, no sanitizer report, bounded scans)"
 PROPS["C18"]["assumptions"] = E5_ASSUME
 ENGINES["corrupt"] = "E4: byte-damage enumerator over generated databases (C11 oracle; C18 whole-database totality)"
@@ -434,3 +434,11 @@ PROPS["C12"]["rule"] += ("; concurrent stage: for every schedule within the devi
                          "iterators + manual compaction (D3), stalled writers (D6), ldb_compact vs flush (D15): the n-th fsync / write on a MANIFEST, log or table file fails once (EIO); "
                          "no hang; after the fault has cleared, kill + reopen (at the point where all calls had returned) and close + reopen succeed and contain every batch whose write returned OK")
 PROPS["C12"]["assumptions"] = PROPS["C12"]["assumptions"] + E1_ASSUME[:3]
+
+# C04 over damaged logs: the byte-damage enumerator restricted to write-ahead logs and to the atomicity verdict
+PROPS["C04"]["stages"].append(dict(name="log-damage", driver="corrupt", flavour="asan", weight=0.4,
+                                   args=["--mode", "c11", "--ftypes", "2", "--only-sig", "batch-torn-by-damage"],
+                                   quick=["--cfgs", "B1", "--dbs", "4", "--quick-alts", "1"],
+                                   thorough=["--cfgs", "B1;B1,reuse=1", "--dbs", "4"]))
+PROPS["C04"]["rule"] += ("; log-damage stage: every byte of every write-ahead log of 4 generated databases (one holding a batch whose record spans three blocks) x {bit flips, 00, FF, truncation, zeroed sector, "
+                         "zeroes to the end of the block}, recovery with paranoid_checks 1 and 0: the contents are the fold of whole batches")
